@@ -222,7 +222,13 @@ let scopes (p : program) (out : string) : string list =
   Array.iter (function
     | LLabel (x, g) ->
         (match List.assoc_opt x inf.top_scopes with
-         | Some want -> if g <> want then fails := Printf.sprintf "top-level label %s is %s but was declared %s" x (if g then "exported (::)" else "local (:)") (if want then "global" else "local") :: !fails
+         | Some want ->
+             (* a name the author declared that is ALSO an invented label (possible in lint mode, repair D20: the hoisted label and
+                the statement both appear): one line carries the declared scope, the invented ones are local *)
+             let invented = List.mem x inf.inline_texts || List.mem x inf.hoisted_movs in
+             let others = Array.to_list ls |> List.filter_map (function LLabel (y, g') when y = x -> Some g' | _ -> None) in
+             let ok = if invented && List.length others > 1 then List.mem want others && (g = want || g = false) else g = want in
+             if not ok then fails := Printf.sprintf "top-level label %s is %s but was declared %s" x (if g then "exported (::)" else "local (:)") (if want then "global" else "local") :: !fails
          | None ->
              match List.assoc_opt x user with
              | Some want -> if g <> want then fails := Printf.sprintf "label %s inside a script is %s but was written %s" x (if g then "exported (::)" else "local (:)") (if want then "(global)" else "local") :: !fails
